@@ -2,7 +2,9 @@ package props
 
 import (
 	"fmt"
+	"regexp"
 	"sort"
+	"strconv"
 	"strings"
 	"sync"
 	"sync/atomic"
@@ -16,19 +18,47 @@ import (
 )
 
 var (
-	npmHookMu   sync.Mutex
-	npmHookTree *npmres.VerifTreeNode
+	npmHookOnce  sync.Once
+	npmHookTrees sync.Map // root version string (carrying a unique +tag) -> *VerifTreeNode
+	npmHookSeq   atomic.Int64
+	npmHookMu    sync.Mutex
+	npmTagRE     = regexp.MustCompile(`\+t[0-9]+`)
 )
 
-// npmResolveWithTree resolves and captures the install tree through the verif hook.
-func npmResolveWithTree(lc resolve.Client, vk resolve.VersionKey) (*resolve.Graph, *npmres.VerifTreeNode, error) {
-	npmHookMu.Lock()
-	defer npmHookMu.Unlock()
-	npmHookTree = nil
-	npmres.VerifTreeHook = func(root *npmres.VerifTreeNode) { npmHookTree = root }
-	g, err := npmres.NewResolver(lc).Resolve(ctxBG, vk)
-	npmres.VerifTreeHook = nil
-	return g, npmHookTree, err
+// npmResolveWithTree resolves root in u and captures the install tree through the verif hook. The hook is a
+// package-level variable, so concurrent resolutions are told apart by a unique build-metadata tag appended to
+// the root's version string (the root's own version never takes part in matching: nothing requires the root).
+func npmResolveWithTree(u univ.Universe, root [2]string) (univ.Universe, [2]string, *resolve.Graph, *npmres.VerifTreeNode, error) {
+	npmHookOnce.Do(func() {
+		npmres.VerifTreeHook = func(t *npmres.VerifTreeNode) { npmHookTrees.Store(t.Version.Version, t) }
+	})
+	if root[0] != "r" {
+		// the root is a version of a package that requirements may point at: its version string must stay as it is;
+		// such resolutions are serialised instead
+		npmHookMu.Lock()
+		defer npmHookMu.Unlock()
+		lc := u.Client(nil)
+		g, err := npmres.NewResolver(lc).Resolve(ctxBG, u.VK(root[0], root[1]))
+		var tree *npmres.VerifTreeNode
+		if t, ok := npmHookTrees.LoadAndDelete(root[1]); ok {
+			tree = t.(*npmres.VerifTreeNode)
+		}
+		return u, root, g, tree, err
+	}
+	tagged := root[1] + "+t" + strconv.FormatInt(npmHookSeq.Add(1), 10)
+	u2 := u.Clone()
+	for i := range u2.Vers {
+		if u2.Vers[i].Pkg == root[0] && u2.Vers[i].Ver == root[1] {
+			u2.Vers[i].Ver = tagged
+		}
+	}
+	lc := u2.Client(nil)
+	g, err := npmres.NewResolver(lc).Resolve(ctxBG, u2.VK(root[0], tagged))
+	var tree *npmres.VerifTreeNode
+	if t, ok := npmHookTrees.LoadAndDelete(tagged); ok {
+		tree = t.(*npmres.VerifTreeNode)
+	}
+	return u2, [2]string{root[0], tagged}, g, tree, err
 }
 
 // npmSatisfies is the hand-table oracle: does version (record) satisfy requirement text?
@@ -78,13 +108,12 @@ type c06Stats struct {
 
 // c06Check resolves root in u and checks every clause; returns failures "clause: text".
 func c06Check(u univ.Universe, root [2]string, st *c06Stats) (fails []string, outcome string) {
-	lc := u.Client(nil)
-	g, tree, err := npmResolveWithTree(lc, u.VK(root[0], root[1]))
+	u, root, g, tree, err := npmResolveWithTree(u, root)
 	if err != nil {
 		return nil, "resolve-error"
 	}
 	fail := func(clause, msg string) {
-		fails = append(fails, clause+": "+msg+"\n  graph: "+dumpGraphFull(g))
+		fails = append(fails, npmTagRE.ReplaceAllString(clause+": "+msg+"\n  graph: "+dumpGraphFull(g), ""))
 	}
 	n := len(g.Nodes)
 	out := make([][]resolve.Edge, n)
@@ -109,7 +138,9 @@ func c06Check(u univ.Universe, root [2]string, st *c06Stats) (fails []string, ou
 			found := false
 			for _, e := range out[i] {
 				alias, _ := e.Type.GetAttr(dep.KnownAs)
-				if e.Requirement == r.Ver && g.Nodes[e.To].Version.Name == r.Pkg && alias == r.Alias {
+				// an aliased requirement is looked up by its alias: like npm (Arborist's depValid checks only the
+				// version of whatever is installed under that name) the package behind the alias may differ
+				if e.Requirement == r.Ver && alias == r.Alias && (r.Alias != "" || g.Nodes[e.To].Version.Name == r.Pkg) {
 					found = true
 				}
 			}
@@ -129,7 +160,7 @@ func c06Check(u univ.Universe, root [2]string, st *c06Stats) (fails []string, ou
 			var decl *univ.Req
 			for k := range v.Reqs {
 				r := &v.Reqs[k]
-				if r.Pkg == to.Name && r.Ver == e.Requirement && r.Alias == alias && !r.Dev && r.Scope != "peer" {
+				if (r.Pkg == to.Name || alias != "") && r.Ver == e.Requirement && r.Alias == alias && !r.Dev && r.Scope != "peer" {
 					decl = r
 				}
 			}
@@ -147,6 +178,9 @@ func c06Check(u univ.Universe, root [2]string, st *c06Stats) (fails []string, ou
 			if sel {
 				if st != nil {
 					atomic.AddInt64(&st.freshInstalls, 1)
+				}
+				if to.Name != decl.Pkg {
+					fail("pick", fmt.Sprintf("fresh install for %s@%q installed package %s", decl.Pkg, e.Requirement, to.Name))
 				}
 				if want, ok := npmExpectedPick(u, to.Name, e.Requirement); ok && want != to.Version {
 					fail("pick", fmt.Sprintf("fresh install for %s@%q chose %s, expected %s (latest tag if it satisfies, else highest non-deprecated, else highest)", to.Name, e.Requirement, to.Version, want))
@@ -248,9 +282,9 @@ func c06Check(u univ.Universe, root [2]string, st *c06Stats) (fails []string, ou
 func C06(tier string) {
 	run := core.NewRun("C06", tier, c06Replay)
 	quick := tier == "quick"
-	dev := 3
+	dev := 4
 	if quick {
-		dev = 2
+		dev = 3
 		run.SetBudget(120 * time.Second)
 	} else {
 		run.SetBudget(2400 * time.Second)
